@@ -177,13 +177,13 @@ bool Env::parallel(const ParallelOpts& o) {
     pids[w] = p;
   };
   for (int w = 0; w < W; w++) { sh->slots[w].seqDone = 0; spawn(w); }
-  int live = W; bool cut = false;
+  int live = W; bool cut = false; std::vector<std::string> cappedList;
   std::vector<Viol> crashViols;
   auto recordBad = [&](int w, uint64_t idx, const std::string& kind, const std::string& what) {
     bad.insert(idx);
     // confirm alone in a fresh process
     std::string ep = dir + "/solo.err";
-    int r = soloRun(o, idx, kind == "hang" ? timeout * 10 : std::max(timeout * 10, 60.0), ep);
+    int r = soloRun(o, idx, kind == "hang" ? timeout * 4 : std::max(timeout * 10, 60.0), ep);
     std::string cls = kind;
     std::string errTail = tailOfFile(r == 0 ? dir + "/w" + std::to_string(w) + ".err" : ep, 3000);
     if (r == 0) { if (kind == "hang") return; /* slow, not hung: the solo run with 10x limit finished */ cls = kind + "_only_in_sequence"; }
@@ -209,12 +209,14 @@ bool Env::parallel(const ParallelOpts& o) {
       } else if (sh->slots[w].running && nowMono() - sh->slots[w].start > timeout) {
         uint64_t idx = sh->slots[w].index;
         kill(pids[w], SIGKILL); waitpid(pids[w], &st, 0); progressed = true;
-        recordBad(w, idx, "hang", "case exceeded " + std::to_string(timeout) + " s");
+        if (o.hangIsCap) { bad.insert(idx); counters["capped_cases"]++; if (cappedList.size() < 20) cappedList.push_back(o.describe ? o.describe(idx) : std::to_string(idx)); }
+        else recordBad(w, idx, "hang", "case exceeded " + std::to_string(timeout) + " s");
         sh->slots[w].running = 0;
         spawn(w);
       }
     }
     if (!cut && pastDeadline()) { sh->stop = 1; cut = true; }
+    if (!cut && crashViols.size() >= 12) { sh->stop = 1; cut = true; info[o.stage + ".stopped_early"] = "\"12 crashes/hangs attributed to single cases: remaining blocks of this stage skipped\""; }   // circuit breaker, never reached on a healthy tree
     if (!progressed) usleep(5000);
   }
   // merge worker files
@@ -243,6 +245,7 @@ bool Env::parallel(const ParallelOpts& o) {
       if (in) buf.push_back(line);
     }
   }
+  if (!cappedList.empty()) { std::string j = "["; for (size_t i = 0; i < cappedList.size(); i++) j += (i ? "," : "") + std::string("\"") + jsonEscape(cappedList[i]) + "\""; info[o.stage + ".capped_examples"] = j + "]"; }
   for (auto& v : crashViols) { addViol(v); violCount[v.subcheck + "|" + v.cls + "|" + v.feats]++; }
   std::string rm = "rm -rf '" + dir + "'"; if (system(rm.c_str())) {}
   munmap((void*)sh, sizeof(Shared));
